@@ -9,6 +9,7 @@ import (
 	"net/url"
 	"os"
 	"runtime"
+	"sort"
 	"sync"
 	"sync/atomic"
 	"time"
@@ -127,7 +128,28 @@ func (e *Engine) setupCall(sc *Script, id int, seed int64) *callRun {
 	base := context.Background()
 	if sc.ReqMD {
 		md := metadata.Join(c.reqOps[0], metadata.Pairs("vk-call", c.key))
-		base = metadata.NewOutgoingContext(base, md)
+		if seed%2 == 1 {
+			// same metadata, attached the other way: part of it given whole,
+			// the rest appended pair by pair
+			first, kvs := metadata.MD{}, []string{}
+			keys := make([]string, 0, len(md))
+			for k := range md {
+				keys = append(keys, k)
+			}
+			sort.Strings(keys)
+			for i, k := range keys {
+				if i%2 == 0 {
+					first[k] = md[k]
+					continue
+				}
+				for _, v := range md[k] {
+					kvs = append(kvs, k, v)
+				}
+			}
+			base = metadata.AppendToOutgoingContext(metadata.NewOutgoingContext(base, first), kvs...)
+		} else {
+			base = metadata.NewOutgoingContext(base, md)
+		}
 	}
 	cctx, cancel := context.WithCancel(base)
 	c.cancel = cancel
@@ -423,8 +445,30 @@ func (e *Engine) RunFree(sc *Script) []Ev {
 	for i := 1; i <= n; i++ {
 		cs = append(cs, e.setupCall(sc, i, sc.Seed+int64(i)*7919))
 	}
+	if sc.Slow && e.memTr != nil && sc.Tr == "httpmem" {
+		atomic.StoreInt64(&e.memTr.slow, sc.Seed|1)
+		defer atomic.StoreInt64(&e.memTr.slow, 0)
+	}
 	var wg sync.WaitGroup
+	if sc.Chain && sc.Kind == "unary" {
+		// one call after the other, each started as soon as the one before
+		// has returned to its caller (whatever it left running behind it)
+		wg.Add(1)
+		go func() {
+			defer wg.Done()
+			for _, c := range cs {
+				go c.clientLoop(c.cs)
+				go c.clientLoop(c.cs2)
+				c.clientLoop(c.cr)
+				<-c.cs.exited
+				<-c.cs2.exited
+			}
+		}()
+	}
 	for _, c := range cs {
+		if sc.Chain && sc.Kind == "unary" {
+			break
+		}
 		c := c
 		wg.Add(1)
 		go func() {
